@@ -26,6 +26,8 @@ def run_one(sid):
         lines = [l.strip()[:300] for l in out.splitlines() if l.startswith("  [")][:6]
         meta["check"] = {"command": "./check %s --tier quick" % prop, "exit": r.returncode, "detected": r.returncode == 1, "rules_reporting": rules, "report_lines": lines}
         json.dump(meta, open(os.path.join(sdir, "meta.json"), "w"), indent=1)
+        if r.returncode != 1 and meta.get("not_decided"):
+            return sid, "NOT-DECIDED(exit %d)" % r.returncode, rules        # documented in meta.json["not_decided"] and DESIGN.md 11.8
         return sid, "detected" if r.returncode == 1 else "MISSED(exit %d)" % r.returncode, rules
     finally:
         shutil.rmtree(d, ignore_errors=True)
